@@ -725,3 +725,57 @@ Theorem C11_lone_atoms_fixed :
     ((forall c, In c (components g) -> exists u, c = [u]) -> a_count (analyze fn fe g) = 1%N).
 Proof. exact lone_atoms_fixed. Qed.
 Print Assumptions C11_lone_atoms_fixed.
+
+From SK Require Import model.C03_Model model.C05_Model model.C11_Agree proof.C05_Set proof.C05_Enum proof.C11_Glue proof.C11_GlueBridge.
+
+(** Clause 4 WITHOUT the gluing premise (round 6; proof/C11_Glue.v, proof/C11_GlueBridge.v).  The gluing is C03's model
+    [C03_Model.glue host rc m] (tied to SynReactor._glue_graph / _node_glue by C03's correspondence; [None] = no ITS is
+    produced); [glue1] turns the option into a list; [obs_eq] = same label function and same adjacency function (C05).
+    [rc : its] is C03's typed ITS graph of the rule centre, [g : graph] C11's graph of the same object (e.g.
+    [to_rule_graph [K_atom_map] ag]); [agreeb g rc] (model/C11_Agree.v) is a COMPUTATION over the node list: same node
+    list, equal labels on the same pairs of atoms, the enumerator's bond test answers alike - evaluated by the
+    correspondence on every rule application whose rule centre is in C03's domain (expected and observed: true).
+    Hypotheses left, all evaluated by a correspondence: [agreeb] (C11), [rc_ok] = distinct node ids, one entry per bond,
+    bonds between listed atoms, and [match_ok] = a match is an injective dictionary on labelled atoms (C05's side_okb).
+    Conclusion: C11's own pruning step [C11_Model.prune] is C05's, its symmetry list is C05's; kept matches are raw matches;
+    every raw match that glues has a kept representative whose ITS is observationally equal - so the set of glued ITS
+    graphs (hence, with the RDKit contract, of distinct reactions) is the same with and without the pruning.
+    Proof: imports C05's glue_aut (glue(rc, m o s^-1) = glue(s.rc, m) and s.rc = rc as a labelled graph) and glue_obs. *)
+Theorem C11_prune_same_glue :
+  forall (g : C11_Model.graph) (rc : its) (host : hostg) (raw : list C11_Model.mapping),
+    agreeb g rc = true ->
+    (NoDup (node_ids rc) /\ simple_edgesb (gedges rc) = true /\
+     (forall a b x, In (a, b, x) (gedges rc) -> In a (node_ids rc) /\ In b (node_ids rc))) ->
+    (forall m, In m raw ->
+       NoDup (map fst m) /\ NoDup (map snd m) /\
+       forall q h, In (q, h) m -> (exists pn, label rc q = Some pn) /\ (exists hn, label host h = Some hn)) ->
+    let kept := C11_Model.prune (fun m : C11_Model.mapping => m) g raw in
+    (forall k, In k kept -> In k raw) /\
+    (forall m T, In m raw -> glue host rc m = Some T ->
+       exists k T', In k kept /\ glue host rc k = Some T' /\ obs_eq T T') /\
+    (forall T, In T (flat_map (glue1 host rc) raw) -> exists T', In T' (flat_map (glue1 host rc) kept) /\ obs_eq T T') /\
+    (forall T', In T' (flat_map (glue1 host rc) kept) -> In T' (flat_map (glue1 host rc) raw)).
+Proof. exact c11_prune_same_glue. Qed.
+Print Assumptions C11_prune_same_glue.
+
+(** The bridge itself: under [agreeb] the two symmetry lists - C11's [rule_auts g] and C05's [rule_auts rc], both instances
+    of the verified enumerator lib/Mono.v - are LITERALLY equal, and so are the two pruning steps. *)
+Theorem C11_rule_auts_agree :
+  forall (g : C11_Model.graph) (rc : its), agreeb g rc = true ->
+    node_ids g = node_ids rc /\ C11_Model.rule_auts g = C05_Model.rule_auts rc /\
+    forall raw : list C11_Model.mapping, C11_Model.prune (fun m : C11_Model.mapping => m) g raw = C05_Model.prune rc raw.
+Proof. exact rule_auts_agree. Qed.
+Print Assumptions C11_rule_auts_agree.
+
+(** The same for the de-duplicator handed ANY list of symmetries each of which is a dictionary with the items of a listed
+    automorphism of the rule (item order free - the form in which networkx delivers them to
+    deduplicate_matches_by_automorphisms): nothing invented, nothing lost up to observational equality of the glued ITS. *)
+Theorem C11_dedup_any_same_glue :
+  forall (host : hostg) (rc : its) (A raw : list C11_Model.mapping),
+    rc_ok rc -> (forall m, In m raw -> match_ok host rc m) ->
+    (forall s, In s A -> NoDup (map fst s) /\ exists s', In s' (C05_Model.rule_auts rc) /\ forall ph, In ph s <-> In ph s') ->
+    (forall k, In k (C11_Model.dedup_aut (fun m : C11_Model.mapping => m) A raw) -> In k raw) /\
+    (forall m T, In m raw -> glue host rc m = Some T ->
+       exists k T', In k (C11_Model.dedup_aut (fun m : C11_Model.mapping => m) A raw) /\ glue host rc k = Some T' /\ obs_eq T T').
+Proof. exact dedup_any_same_glue. Qed.
+Print Assumptions C11_dedup_any_same_glue.
